@@ -30,11 +30,15 @@ AxisAligned(A) == A[2] = 0 /\ A[4] = 0
 (* ---- operations: [op, p] ; Eff(g, o) = [ok, side, n (numerators), td, h, w] ---- *)
 Pix(n, td, h, w) == [ok |-> TRUE, side |-> "pix", n |-> n, td |-> td, h |-> h, w |-> w]
 Wld(n, td, h, w) == [ok |-> TRUE, side |-> "wld", n |-> n, td |-> td, h |-> h, w |-> w]
+AbsA(n, h, w) == [ok |-> TRUE, side |-> "abs", n |-> n, td |-> 1, h |-> h, w |-> w]      \* the new affine is given outright (not a composition)
 NA == [ok |-> FALSE, side |-> "pix", n |-> Tr(0, 0), td |-> 1, h |-> 0, w |-> 0]
 RotNum(g, r, rd) ==    \* rotation r/rd = <<cos, -sin, sin, cos>> about the image of the pixel centre; numerators over rd (linear) and 2*rd*DEN... kept as M over md = 2 * rd
   LET c2 == ApplyK(g.A, g.w, g.h, 2) IN     \* centre * 2 * DEN
   << 2 * r[1], 2 * r[2], (rd * c2[1] - r[1] * c2[1] - r[2] * c2[2]),
      2 * r[3], 2 * r[4], (rd * c2[2] - r[3] * c2[1] - r[4] * c2[2]) >>
+\* bounding box of the pixel rectangle, numerators over DEN (same as BBoxOf below, needed here)
+BBoxNum(g) == LET P == [i \in 1..4 |-> ApplyK(g.A, (<<0, g.w, g.w, 0>>)[i], (<<0, 0, g.h, g.h>>)[i], 1)] IN
+              << SetMin({P[i][1] : i \in 1..4}), SetMin({P[i][2] : i \in 1..4}), SetMax({P[i][1] : i \in 1..4}), SetMax({P[i][2] : i \in 1..4}) >>
 Eff(g, o) ==
   LET h == g.h w == g.w p == o.p IN
   CASE o.op = "crop" ->
@@ -76,6 +80,10 @@ Eff(g, o) ==
                             Pix(<<w * hh, 0, 0, 0, h * ww, 0>>, ww * hh, hh, ww))
     [] o.op = "zoom_to_n" -> (LET nmax == Max2(h, w) n == IF p = "double" THEN 2 * nmax ELSE CeilDiv(nmax, 2) IN    \* zoom_out(nmax / n)
                               Pix(<<nmax, 0, 0, 0, nmax, 0>>, n, Max2(1, CeilDiv(h * n, nmax)), Max2(1, CeilDiv(w * n, nmax))))
+    \* zoom_to(resolution=r): the north-up grid of pixel size r (world units; p = r) laid tightly over the bounding box from its top-left corner -
+    \* whatever the orientation of the box itself (a rotated box is NOT re-sampled along its own axes)
+    [] o.op = "zoom_to_res" -> (LET b == BBoxNum(g) R == p * DEN IN
+                                AbsA(<<R, 0, b[1], 0, -R, b[4]>>, Max2(1, CeilDiv(b[4] - b[2], R)), Max2(1, CeilDiv(b[3] - b[1], R))))
     [] o.op = "scaled_down" -> Pix(<<p, 0, 0, 0, p, 0>>, 1, CeilDiv(h, p), CeilDiv(w, p))
     [] o.op = "buffered" ->      \* p = <<bx, by>> buffers in TENTHS of this box's own pixel size; whole pixels added per side = ceil(b - 0.1)
          IF AxisAligned(g.A) THEN (LET nx == CeilDiv(p[1] - 1, 10) ny == CeilDiv(p[2] - 1, 10) IN Pix(Tr(-nx, -ny), 1, h + 2 * ny, w + 2 * nx)) ELSE NA
@@ -87,7 +95,7 @@ Eff(g, o) ==
     [] o.op = "mul" -> IF p = "scale2" THEN Pix(<<2, 0, 0, 0, 2, 0>>, 1, h, w) ELSE Pix(Tr(1, 1), 1, h, w)
     [] o.op = "rmul" -> IF p = "scale2" THEN Wld(<<2, 0, 0, 0, 2, 0>>, 1, h, w) ELSE Wld(<<1, 0, 5 * DEN, 0, 1, -5 * DEN>>, 1, h, w)
 
-NewNum(g, e) == IF e.side = "pix" THEN AddT(ComposeNum(g.A, e.n), g.A, e.td) ELSE WorldNum(e.n, g.A)
+NewNum(g, e) == IF e.side = "abs" THEN e.n ELSE IF e.side = "pix" THEN AddT(ComposeNum(g.A, e.n), g.A, e.td) ELSE WorldNum(e.n, g.A)
 Representable(g, e) == e.ok /\ Divisible(NewNum(g, e), e.td) /\ e.h >= 1 /\ e.w >= 1
 Apply(g, e) == [h |-> e.h, w |-> e.w, A |-> DivAll(NewNum(g, e), e.td), crs |-> g.crs]
 
@@ -103,7 +111,7 @@ Ops == UNION { {[op |-> "crop", p |-> x] : x \in CropNames},
                {[op |-> x, p |-> 0] : x \in {"flipx", "flipy", "left", "right", "top", "bottom", "center_pixel"}},
                {[op |-> "buffered", p |-> x] : x \in {<<15, 10>>, <<10, 10>>, <<0, 10>>, <<5, 0>>, <<11, 1>>}},
                {[op |-> "rotate", p |-> x] : x \in {90, -90, 180, 53}}, {[op |-> "zoom_out", p |-> x] : x \in {2, 1, 3, 10}},
-               {[op |-> "zoom_to", p |-> x] : x \in {"tall", "wide", "half"}}, {[op |-> "zoom_to_n", p |-> x] : x \in {"double", "halve"}},
+               {[op |-> "zoom_to", p |-> x] : x \in {"tall", "wide", "half"}}, {[op |-> "zoom_to_n", p |-> x] : x \in {"double", "halve"}}, {[op |-> "zoom_to_res", p |-> x] : x \in {1, 3, 5}},
                {[op |-> "scaled_down", p |-> x] : x \in {2, 3, 4}}, {[op |-> "mul", p |-> x] : x \in {"scale2", "shift"}},
                {[op |-> "rmul", p |-> x] : x \in {"scale2", "shift"}} }
 Coverers == {"pad", "pad_wh", "zoom_out", "scaled_down", "buffered", "zoom_to_n"}
